@@ -2,6 +2,7 @@ import StorageModel.C18.MvccProofs
 import StorageModel.C18.Store
 import StorageModel.C18.Globals
 import StorageModel.C18.ParserPool
+import StorageModel.C18.SortFieldsProofs
 import StorageModel.Generated.Globals
 /-
   C18 — Concurrent use: snapshot-isolated reads and no data races.
@@ -279,6 +280,97 @@ theorem paged_query_is_page_of_all (sk l : Nat) (v : Ver) :
   simp [evalQ, page, this, List.length_take]
   omega
 
+/-! ## Round 9: the sort fields of one parsed query under several scans -/
+
+/-- no function appends onto a slice that a getter handed out from an object's own storage (decide over the two tables
+    regenerated from the source; one reviewed exception, store construction) -/
+theorem no_append_onto_handed_out_slice :
+    noAppendOntoHandedOutSlice Generated.sliceGetters Generated.resultAppends = true := by decide
+
+/-- what the Boolean says, for any pair of tables -/
+theorem result_append_table_meaning (gs : List SliceGetter) (rs : List ResultAppend)
+    (h : noAppendOntoHandedOutSlice gs rs = true) :
+    ∀ r ∈ rs, (∀ g ∈ gs, g.name ≠ r.getter) ∨
+      reviewedResultAppends.any (fun e => e.1 == r.pkg && e.2.1 == r.func && e.2.2.1 == r.getter) = true := by
+  intro r hr
+  have := List.all_eq_true.1 h r hr
+  simp only [ResultAppend.ok, Bool.or_eq_true, Bool.not_eq_true', List.any_eq_false] at this
+  rcases this with h1 | h2
+  · left; intro g hg; have := h1 g hg; simpa using this
+  · right; exact h2
+
+/-- the analysis sees the scanners appending (through `newRowComparator`'s parameter) onto what `GetSortFields` returns,
+    in boltz and in objectz, and `GetSortFields` / `getSortFields` are NOT getters of a stored slice in this tree (the
+    model `SortFields.getFresh` is the code's shape); it also sees a real stored-slice getter (`GetRootPath`) -/
+theorem result_append_table_anchors :
+    hasResultAppend Generated.resultAppends "boltz" "sortingScanner.ScanCursor" "GetSortFields" = true ∧
+    hasResultAppend Generated.resultAppends "objectz" "memSortingScanner.Scan" "GetSortFields" = true ∧
+    Generated.sliceGetters.any (fun g => g.name == "GetSortFields" || g.name == "getSortFields") = false ∧
+    Generated.sliceGetters.any (fun g => g.name == "GetRootPath") = true := by decide
+
+/-- **Every scan keeps its own sort fields.**  For every list of sort fields (any length, also those where the slice
+    `getSortFields` builds has spare capacity) and any number of scans of the one parsed query, each taking
+    `GetSortFields()` and appending its own terminal field: at the end every scan still sees the query's fields followed
+    by ITS element (Go's append on a heap of backing arrays, `getSortFields` building a new slice per call) -/
+theorem sorted_scans_keep_their_sort_fields (fields xs : List Nat) :
+    SortFields.scansSee fields xs = xs.map (fun x => fields ++ [x]) :=
+  SortFields.scans_see_their_own fields xs
+
+/-- one scan leaves every array that existed before untouched (the heap only grows) and holds a slice in a new array -/
+theorem sorted_scan_touches_no_earlier_array (h0 : SortFields.Heap) (fields : List Nat) (x : Nat) :
+    (∃ extra, (SortFields.scan h0 fields x).1 = h0 ++ extra) ∧ h0.length ≤ (SortFields.scan h0 fields x).2.arr ∧
+      SortFields.view (SortFields.scan h0 fields x).1 (SortFields.scan h0 fields x).2 = fields ++ [x] := by
+  have := SortFields.scan_spec h0 fields x
+  exact ⟨this.1, this.2.1, this.2.2.2⟩
+
+/-- the observation `O<k>` of the harness has one answer for every k: both callers hold k+1 fields ending in their own -/
+theorem sort_fields_observation (k : Nat) (v : Ver) : evalQ (.sortFieldsTwice k) v = [k + 1, 1, k + 1, 1] := by
+  simp [evalQ, SortFields.two_callers_keep_their_own]
+
+/-- the other shape — the `[]SortField` view built ONCE while parsing and handed to every caller: with 3 sort fields
+    (append growth 1, 2, 4: one spare slot) the element caller 1 appended is replaced by caller 2's; with 4 fields
+    (no spare slot) nothing is shared.  Not the code's shape (`result_append_table_anchors`). -/
+example :
+    let p := SortFields.getFresh [] [0, 1, 2]
+    let a := SortFields.scanStored p.1 p.2 100
+    let b := SortFields.scanStored a.1 p.2 200
+    (SortFields.view b.1 a.2, SortFields.view b.1 b.2) = ([0, 1, 2, 200], [0, 1, 2, 200]) := by decide
+example :
+    let p := SortFields.getFresh [] [0, 1, 2, 3]
+    let a := SortFields.scanStored p.1 p.2 100
+    let b := SortFields.scanStored a.1 p.2 200
+    (SortFields.view b.1 a.2, SortFields.view b.1 b.2) = ([0, 1, 2, 3, 100], [0, 1, 2, 3, 200]) := by decide
+
+/-! ## Round 9: the sorted shared texts -/
+
+theorem insertBy_perm (keys : List (Nat × Bool)) (e : Ent) (l : List Ent) : (insertBy keys e l).Perm (e :: l) := by
+  induction l with
+  | nil => simp [insertBy]
+  | cons x r ih =>
+    unfold insertBy
+    split
+    · exact List.Perm.refl _
+    · exact (List.Perm.cons x ih).trans (List.Perm.swap e x r)
+
+theorem foldl_insertBy_perm (keys : List (Nat × Bool)) (l : List Ent) :
+    ∀ acc, (l.foldl (fun acc e => insertBy keys e acc) acc).Perm (l ++ acc) := by
+  induction l with
+  | nil => intro acc; simp
+  | cons e r ih =>
+    intro acc
+    simp only [List.foldl_cons]
+    refine (ih _).trans ?_
+    refine (List.Perm.append_left r (insertBy_perm keys e acc)).trans ?_
+    simp
+
+/-- the sorting scanner's rows, before paging, are exactly the rows that satisfy the filter — none dropped, none doubled —
+    for every list of sort keys and every version; the answer of a sorted shared text is a page of such a rearrangement -/
+theorem sorted_shared_answer_is_page_of_the_filtered_rows (j : Nat) (v : Ver) :
+    ∃ s : List Ent, s.Perm (v.filter (fun e => (sharedSort j).2.1 ≤ e.rank)) ∧
+      evalSharedSort j v = ((s.drop (sharedSort j).2.2.1).take (sharedSort j).2.2.2).map (·.id) := by
+  refine ⟨(v.filter (fun e => (sharedSort j).2.1 ≤ e.rank)).foldl (fun acc e => insertBy (sharedSort j).1 e acc) [], ?_, ?_⟩
+  · simpa using foldl_insertBy_perm (sharedSort j).1 (v.filter (fun e => (sharedSort j).2.1 ≤ e.rank)) []
+  · simp only [evalSharedSort]
 /-! ## Non-vacuity -/
 
 /-- an interleaving in which a reader that began before a commit keeps answering from the old
@@ -342,6 +434,18 @@ example : noProcessWideConfig configCallsWithAntlrTrace = false := by decide
 def paramWritesWithSortedValues : List ParamWrite :=
   [{ pkg := "boltz", func := "BaseStore.IteratorMatchingAllOf", param := "values", how := ParamWriteHow.sort, api := ApiKind.read }]
 example : readApisDoNotWriteArguments paramWritesWithSortedValues = false := by decide
+
+/-- the table shape of "getSortFields returns the stored view, the scanner appends its id field" is rejected -/
+example : noAppendOntoHandedOutSlice
+    [{ pkg := "ast", func := "SortByNode.getSortFields", name := "getSortFields", returns := "node.fields" },
+     { pkg := "ast", func := "queryNode.GetSortFields", name := "GetSortFields", returns := "via getSortFields()" }]
+    [{ pkg := "boltz", func := "sortingScanner.ScanCursor", getter := "GetSortFields", via := "parameter of newRowComparator" }] = false := by
+  decide
+
+/-- a sorted shared text on one version: text 16 (`rank >= 1 sort by even, rank desc, name desc skip 1 limit 20`) -/
+example :
+    let v : Ver := [⟨10, 100, 1, [], []⟩, ⟨11, 110, 2, [], []⟩, ⟨12, 120, 3, [], []⟩, ⟨13, 130, 0, [], []⟩, ⟨14, 140, 3, [], []⟩, ⟨15, 150, 2, [], []⟩]
+    evalQ (.qShared 16) v = [11, 14, 12, 10] := by decide
 
 /-- the second reader's unpaged list is not cut by the first reader's limit (the model's answers on one version) -/
 example :
